@@ -70,3 +70,19 @@ PLANS.update({
     "C11": dict(level="exploration", jobs=multi(simple("seqmap", (1200, 0), (60000, 0)), seq_plan((600, 6), (40000, 200))), assumptions=SEQ_ASSUME, min_evaluations=100),
     "C12": dict(level="exploration", jobs=multi(seq_plan((3000, 12), (150000, 300)), simple("seqmap", (800, 0), (50000, 0))), assumptions=SEQ_ASSUME, min_evaluations=100),
 })
+
+
+def race_jobs(tier, cores):
+    n, n2, stripes = (1, 100000, 4) if tier == "quick" else (8, 1000000, 8)
+    jobs = []
+    for extra in ("none", "perturb"):
+        jobs += striped("racestress", n, n2, stripes, extra, race=True, timeout=3000)
+    return jobs
+
+
+PLANS.update({
+    "C08": dict(level="exploration", jobs=multi(simple("sizeq", (3000, 0), (200000, 0)), seq_plan((1500, 8), (60000, 200)), simple("seqmap", (400, 0), (30000, 0))), assumptions=SEQ_ASSUME + CONC_ASSUME, min_evaluations=100),
+    "C14": dict(level="exploration", jobs=race_jobs, parallel=8, assumptions=["the Go race detector (happens-before) is the oracle; it sees only accesses that execute", "the shim keeps no shared state in race builds (state_race.go), so it adds no synchronisation edge"], min_evaluations=4),
+    "C15": dict(level="exploration", jobs=simple("janitor", (2, 60), (40, 1500), stripes_q=4), exhaustive=True, assumptions=["fake tickers registered through the substituted time.NewTicker stand for the real ticker wiring (the race engine of C14 runs the real one)", "bounded cleanup is decided as: gone after the pass of the second tick after expiry"], min_evaluations=50),
+    "C16": dict(level="fault_enumeration", jobs=simple("stall", (1, 0), (40, 0)), assumptions=["stall points are the shim points (every atomic / lock / wait operation) of the executions produced; one writer stalled at a time", "waiting is made observable by polling locks: a reader that would block spins through counted steps"], min_evaluations=100),
+})
